@@ -66,3 +66,5 @@ func TestRules(t *testing.T) {
 	bz, _ := json.Marshal(out)
 	fmt.Printf("RULES %s\n", bz)
 }
+
+func TestC07(t *testing.T) { runMachine(t, CfgC07) }
